@@ -33,6 +33,7 @@ type Clause struct {
 	Prop    string
 	Always  bool // ensures that also applies to panic exits (none yet)
 	Internal bool    // proved for the body but not exported to callers (may mention the function's locals)
+	Assumed bool     // requires only: a state invariant the callee relies on; assumed (not checked) at call sites and listed as an unchecked assumption
 	Slow    bool     // checked in the thorough tier only (solver needs more than the quick timeout)
 	Using   []string // tags of earlier ensures clauses that may be used as hypotheses ("by #a, #b")
 }
@@ -64,6 +65,8 @@ type Contract struct {
 	PostLets []*Clause // letpost name = expr (evaluated in each exit state, before the ensures clauses)
 	Modifies []string
 	HasMod   bool
+	Invokes  string // `invokes f on entry`: the function-typed parameter f is only ever called with a context whose state equals the entry state
+	Explore  bool   // `explore steps`: function literals handed to an `invokes … on entry` callee are executed at the call site for their obligations
 	Bounded  string
 	Notes    []string
 }
@@ -465,6 +468,17 @@ func parseContractFile(data, file, pkgPath string) ([]*Contract, error) {
 				cur.Modular = true
 			case "pure":
 				cur.Pure = true
+			case "invokes":
+				f := strings.Fields(rest)
+				if len(f) != 3 || f[1] != "on" || f[2] != "entry" {
+					return nil, fail("expected: invokes <param> on entry")
+				}
+				cur.Invokes = f[0]
+			case "explore":
+				if strings.TrimSpace(rest) != "steps" {
+					return nil, fail("expected: explore steps")
+				}
+				cur.Explore = true
 			case "trusted":
 				cur.Trusted = true
 				cur.Modular = true
@@ -506,6 +520,10 @@ func parseContractFile(data, file, pkgPath string) ([]*Contract, error) {
 				if strings.HasPrefix(rest, "slow ") {
 					cl.Slow = true
 					rest = strings.TrimSpace(rest[5:])
+				}
+				if strings.HasPrefix(rest, "assumed ") && word == "requires" {
+					cl.Assumed = true
+					rest = strings.TrimSpace(rest[8:])
 				}
 				if strings.HasPrefix(rest, "internal ") {
 					cl.Internal = true
